@@ -647,6 +647,8 @@ class Interp:
                     base[k_] = base.factory()
                 return base[k_]
             if isinstance(base, dict) and idx is not UNKNOWN:
+                if self.strict_keys and self._hashable(idx) not in base:
+                    self.throw(f"KeyError: {self._hashable(idx)}", e)
                 return base.get(self._hashable(idx), UNKNOWN)
             if isinstance(base, Obj) and isinstance(idx, int) and not isinstance(idx, bool) and 0 <= idx < len(base.fields):
                 return list(base.fields.values())[idx]
@@ -1168,6 +1170,7 @@ def _install():
     Interp.allow_recursion = False
     Interp.prelude_same_object = True
     Interp.strict_index = False
+    Interp.strict_keys = False
     Interp.while_cap = 3
     Interp.prelude_len = 0
 
